@@ -98,7 +98,24 @@ func genMetaPackage(rng *rand.Rand, depth int, opts func(*rc.GenOpts)) genPkg {
 			if rng.Intn(3) != 0 {
 				ret = rc.GenType(rng, o).Sig()
 			}
-			m.Methods[u] = object.MetaMethod{Uid: u, Name: goodIdent(rng, 8), ParametersSignature: tuple(0).Sig(), ReturnSignature: ret}
+			pt := tuple(0)
+			mm := object.MetaMethod{Uid: u, Name: goodIdent(rng, 8), ParametersSignature: pt.Sig(), ReturnSignature: ret}
+			// parameter descriptions: none, one per parameter, fewer, or more than the signature has members
+			switch rng.Intn(5) {
+			case 1:
+				for k := range pt.Mem {
+					mm.Parameters = append(mm.Parameters, object.MetaMethodParameter{Name: fmt.Sprintf("arg%d", k), Description: "d"})
+				}
+			case 2:
+				for k := 0; k < len(pt.Mem)-1-rng.Intn(2) && k < len(pt.Mem); k++ {
+					mm.Parameters = append(mm.Parameters, object.MetaMethodParameter{Name: fmt.Sprintf("some%d", k)})
+				}
+			case 3:
+				for k := 0; k < len(pt.Mem)+1+rng.Intn(2); k++ {
+					mm.Parameters = append(mm.Parameters, object.MetaMethodParameter{Name: fmt.Sprintf("more%d", k)})
+				}
+			}
+			m.Methods[u] = mm
 		}
 		for j := rng.Intn(3); j > 0; j-- {
 			u := uid()
@@ -219,7 +236,7 @@ var idlTokens = []string{"package", "interface", "struct", "enum", "end", "fn", 
 	"Vec<", "Map<", "Tuple<", "int32", "str", "any", "obj", "bool", "float64", "unknown", "A", "b", "x1", "_", "0", "-1", "\n", "\n", " ", "\t", "é", "\x00"}
 
 func c18(c *wk.Ctx) {
-	c.Note("rule", "streams: roundtrip = packages of 1-3 generated meta-objects (methods with tuple parameter signatures and any return incl. v, signals and properties with tuple signatures; signatures from the grammar with structs shared between actions, nested tuples, template-style struct names, m o X; unique uids in 1..2^32-1; names = identifiers avoiding IDL keywords and basic-type prefixes): ParseIDL(GenerateIDL(m)) must give the same uids, names and signatures; wide = the same with one action of 120 .. 8000 parameters (one IDL line of 2 KiB .. 150 KiB); edge = the same with names that start with a basic IDL type name, IDL keywords as names, or empty nested tuples; text = arbitrary text (random bytes, IDL token soup, mutated valid IDL, valid IDL cut anywhere and ending in the beginning of a comment) must yield a package or an error, never a panic. Distinct non-trivial = distinct generated IDL texts with at least one action (roundtrip) / distinct texts (text).")
+	c.Note("rule", "streams: roundtrip = packages of 1-3 generated meta-objects (methods with tuple parameter signatures - with no, exactly as many, fewer or more parameter descriptions than parameters - and any return incl. v, signals and properties with tuple signatures; signatures from the grammar with structs shared between actions, nested tuples, template-style struct names, m o X; unique uids in 1..2^32-1; names = identifiers avoiding IDL keywords and basic-type prefixes): ParseIDL(GenerateIDL(m)) must give the same uids, names and signatures; wide = the same with one action of 120 .. 8000 parameters (one IDL line of 2 KiB .. 150 KiB); edge = the same with names that start with a basic IDL type name, IDL keywords as names, or empty nested tuples; text = arbitrary text (random bytes, IDL token soup, mutated valid IDL, valid IDL cut anywhere and ending in the beginning of a comment) must yield a package or an error, never a panic. Distinct non-trivial = distinct generated IDL texts with at least one action (roundtrip) / distinct texts (text).")
 	depth := c.Pick(3, 5)
 	c.Cases("roundtrip", c.Pick(5000, 200000), func(i int, rng *rand.Rand) {
 		g := genMetaPackage(rng, 1+rng.Intn(depth), nil)
